@@ -11,7 +11,7 @@ impl Ctx {
 const FILES: &[&str] = &["pkg/b.txt", "pkg/sub/c.txt", "pkg", "pkgx/b.txt", "a.txt", "pkg/b.txt.bak", "dir with space/f", "ü/é.rs", ""];
 const SPECS: &[&str] = &["pkg", "pkg/", "pkg/b.txt", "pkg/sub", "pkg/sub/", "pk", "a.txt", ".", "", "ü", "ü/", "dir with space", "pkg/b.txt/"];
 fn selects(p: &str, f: &str) -> bool {
-    if f == p { return true; }
+    if p == "." || f == p { return true; }   // `.` names the whole work tree
     let (pb, fb) = (p.as_bytes(), f.as_bytes());
     if pb.last() == Some(&b'/') && fb.len() >= pb.len() && &fb[..pb.len()] == pb { return true; }
     let mut q = pb.to_vec(); q.push(b'/');
